@@ -9,6 +9,7 @@ import (
 	"time"
 
 	"github.com/gdamore/tcell/v2"
+	"github.com/gdamore/tcell/v2/encoding"
 	"github.com/gdamore/tcell/v2/terminfo"
 	"pgregory.net/rapid"
 
@@ -17,7 +18,12 @@ import (
 	"verifharness/internal/pbt"
 )
 
-func TestMain(m *testing.M) { pbt.Main(m, "C12") }
+func TestMain(m *testing.M) {
+	// applications commonly link the optional charsets; that must not change
+	// how mouse reports (notably the 8-bit CSI forms) decode in a UTF-8 locale
+	encoding.Register()
+	pbt.Main(m, "C12")
+}
 
 // entries with mouse support that the reports are sent through
 var entryNames = []string{"xterm", "xterm-256color", "alacritty", "konsole", "gnome", "linux", "screen", "rxvt-unicode", "st", "tmux", "xterm-kitty", "foot"}
